@@ -41,7 +41,7 @@ theorem sizesOk_of_writeUpdates (objSize : Nat → Option Nat) : ∀ (m : Items)
 theorem delta_step' (objSize : Nat → Option Nat) (w w' : DemoWriter) (hinv : w.Inv)
     (tick : Int) (ht : Tw.Packer.inI32 tick) (items : List Item) (hv : ∀ it ∈ items, it.valid)
     (hk : w.isKeyframe tick = false) (h : w.writeSnap objSize tick items = (w', .ok)) :
-    ∃ enc, w'.inner.file = w.inner.file ++ enc ∧
+    ∃ enc, w'.inner.file = w.inner.file ++ enc ∧ 2 ≤ enc.length ∧
       ∀ (v : Version) (rest : Bytes), v.num ≥ 5 →
         ∃ r1, DemoReader.nextChunk objSize
             { raw := { data := enc ++ rest, version := v, currentTick := w.inner.prevTick }, snap := w.snap } =
@@ -97,9 +97,9 @@ theorem delta_step' (objSize : Nat → Option Nat) (w w' : DemoWriter) (hinv : w
         unfold Snap.readWithDelta
         rw [hap]
         simp only [buildFromRaw_of_extOk hb.ok, List.append_nil]
-      obtain ⟨e1, hf1, _, hr1⟩ := writeChunk_ok hH w.inner inner1 (.tick tick false) ht hwt
-      obtain ⟨e2, hf2, _, hr2⟩ := writeChunk_ok hH inner1 w'.inner (.delta bs) trivial hwd
-      refine ⟨e1 ++ e2, by rw [hf2, hf1, List.append_assoc], ?_⟩
+      obtain ⟨e1, hf1, hl1, hr1⟩ := writeChunk_ok hH w.inner inner1 (.tick tick false) ht hwt
+      obtain ⟨e2, hf2, hl2, hr2⟩ := writeChunk_ok hH inner1 w'.inner (.delta bs) trivial hwd
+      refine ⟨e1 ++ e2, by rw [hf2, hf1, List.append_assoc], by rw [List.length_append]; omega, ?_⟩
       intro v rest hv5
       have h1 := hr1 v (e2 ++ rest) hv5
       have h2 := hr2 v rest hv5
